@@ -118,7 +118,8 @@ func init() {
 			return q
 		}},
 		{"origin-error-status", false, func(fx *fixture, rng *rand.Rand) *asset.FetchBlobRequest {
-			return &asset.FetchBlobRequest{Uris: []string{fx.origin.URL() + "/status/" + fmt.Sprint(lib.Pick(rng, []int{301, 400, 404, 418, 500, 503})), fx.origin.URL() + "/loop", "http://127.0.0.1:1/refused"}}
+			return &asset.FetchBlobRequest{Uris: []string{fx.origin.URL() + "/status/" + fmt.Sprint(lib.Pick(rng, []int{301, 400, 404, 418, 500, 503})),
+				fx.origin.URL() + "/status/" + fmt.Sprint(lib.Pick(rng, []int{401, 403, 410, 429, 502})), fx.origin.URL() + "/loop", "http://127.0.0.1:1/refused"}}
 		}},
 		{"timeout-and-oldest-fields", false, func(fx *fixture, rng *rand.Rand) *asset.FetchBlobRequest {
 			return &asset.FetchBlobRequest{InstanceName: strings.Repeat("i", 3000), Uris: []string{fx.origin.URL() + "/blob/10"}}
@@ -762,6 +763,7 @@ func init() {
 				if how == "offset-then-cancel" {
 					off = rng.Int64N(b.size / 2)
 				}
+				pause := time.Duration(50+rng.IntN(150)) * time.Millisecond
 				return []*op{ensureOp(b), {ep: "grpc:ByteStream.Read", abortOp: true, desc: map[string]any{"name": name, "offset": off, "how": how, "blob_size": b.size},
 					run: func(ctx context.Context, fx *fixture) result {
 						cctx, cancel := context.WithCancel(ctx)
@@ -791,7 +793,7 @@ func init() {
 						}
 						switch how {
 						case "stop-reading-then-cancel":
-							time.Sleep(time.Duration(50+rng.IntN(150)) * time.Millisecond)
+							time.Sleep(pause)
 						case "close-connection":
 							_ = own.Close()
 						}
@@ -805,9 +807,10 @@ func init() {
 	register(
 		variant{fam: "abort.unary", name: "batchread-large-cancel", weight: 2, applies: always, build: func(fx *fixture, rng *rand.Rand) []*op {
 			zs := rng.IntN(2) == 0
-			return []*op{ensureOp(fx.pool.large[0], fx.pool.medium[0], fx.pool.medium[1]), {ep: "grpc:CAS.BatchReadBlobs", abortOp: true, desc: map[string]any{"zstd": zs, "cancel_after_ms": 1},
+			after := time.Duration(200+rng.IntN(3000)) * time.Microsecond
+			return []*op{ensureOp(fx.pool.large[0], fx.pool.medium[0], fx.pool.medium[1]), {ep: "grpc:CAS.BatchReadBlobs", abortOp: true, desc: map[string]any{"zstd": zs, "cancel_after": after.String()},
 				run: func(ctx context.Context, fx *fixture) result {
-					cctx, cancel := context.WithTimeout(ctx, time.Duration(200+rng.IntN(3000))*time.Microsecond)
+					cctx, cancel := context.WithTimeout(ctx, after)
 					defer cancel()
 					q := &pb.BatchReadBlobsRequest{Digests: []*pb.Digest{fx.pool.medium[0].digest(), fx.pool.large[0].digest(), fx.pool.medium[1].digest()}}
 					if zs {
@@ -819,6 +822,7 @@ func init() {
 		}},
 		variant{fam: "abort.unary", name: "gettree-wide-cancel", weight: 2, applies: always, build: func(fx *fixture, rng *rand.Rand) []*op {
 			pre := []*op{ensureOp(fx.pool.wideDir), ensureOp(fx.pool.children...)}
+			pause := time.Duration(rng.IntN(4000)) * time.Microsecond
 			return append(pre, &op{ep: "grpc:CAS.GetTree", abortOp: true, desc: map[string]any{"root": "wide directory (300 children)", "how": "cancel early / do not read"},
 				run: func(ctx context.Context, fx *fixture) result {
 					cctx, cancel := context.WithCancel(ctx)
@@ -827,7 +831,7 @@ func init() {
 					if err != nil {
 						return grpcRes(err)
 					}
-					time.Sleep(time.Duration(rng.IntN(4000)) * time.Microsecond)
+					time.Sleep(pause)
 					cancel()
 					_, err = st.Recv()
 					if err == nil || err == io.EOF {
